@@ -1,11 +1,18 @@
 #!/venv/bin/python
-"""C12 witness (open finding): `griddify` decides the x cuts with the height a cell has BEFORE the y cuts.
+"""C12 witness: `griddify` decides the x cuts with the height a cell has BEFORE the y cuts (one round of sweeps only).
 
-A tall cell [0,2]x[0,8] has a neighbour boundary at x = 0.05: min(0.05, 1.95) = 0.05 <= 1% of 8, so the cut is
+Scenario 1.  A tall cell [0,2]x[0,8] has a neighbour boundary at x = 0.05: min(0.05, 1.95) = 0.05 <= 1% of 8, so the cut is
 refused as a sliver.  The y cuts (lines y = 1..7 of the stacked neighbours) then shorten the cell to height 1, for
 which 0.05 > 1% of 1: the result contains refinable cells crossed by the line x = 0.05 although the cut would not be
-a sliver for them.  (Runs after fixes/C02_griddify_yloop.diff; on the unrepaired tree the y loop is wrong as well.)
-Exits 1 while the behaviour is present.
+a sliver for them.
+
+Scenario 2 (a cascade: running the x sweep ONCE more after the y sweep is not enough).  Cell [0,128]^2, neighbour side
+lines at x = 1, y = 64, y = 0.5.  Round 1: x = 1 refused (1 <= 1.28), y = 64 accepted, y = 0.5 refused (0.5 <= 1.28).
+Round 2: x = 1 accepted for the pieces of height 64 (1 > 0.64); the piece [0,1]x[0,64] then accepts y = 0.5
+(0.5 > 1% of 1).  Only a fixpoint of both sweeps leaves no refinable cell crossed by a side line of another cell.
+
+(Runs after fixes/C02_griddify_yloop.diff.)  Repaired by fixes/C12_griddify_x_before_y.diff (the two sweeps are repeated
+until a round cuts nothing).  Exits 1 while the behaviour is present, 0 once repaired.
 """
 import os
 import sys
@@ -14,19 +21,49 @@ sys.path.insert(0, os.environ.get("FRAME_REPO", "/repo"))
 from frame.allocation.allocation import Allocation  # noqa: E402
 from frame.geometry.geometry import Rectangle  # noqa: E402
 
+
+def crossed(g):
+    """refinable result cells that are still cuttable (1% rule) at a side line of some result cell."""
+    xs = sorted({v for r in g.allocations for v in (r.rect.bounding_box.ll.x, r.rect.bounding_box.ur.x)})
+    ys = sorted({v for r in g.allocations for v in (r.rect.bounding_box.ll.y, r.rect.bounding_box.ur.y)})
+    bad = []
+    for r in g.allocations:
+        if r.rect.fixed:
+            continue
+        bb = r.rect.bounding_box
+        for x in xs:
+            if r.rect.x_cuttable(x, 0.01):
+                bad.append(("x", x, (bb.ll.x, bb.ur.x, bb.ll.y, bb.ur.y)))
+        for y in ys:
+            if r.rect.y_cuttable(y, 0.01):
+                bad.append(("y", y, (bb.ll.x, bb.ur.x, bb.ll.y, bb.ur.y)))
+    return bad
+
+
+def cell(x0, y0, x1, y1, m):
+    return f"[[{(x0 + x1) / 2},{(y0 + y1) / 2},{x1 - x0},{y1 - y0}], {{{m}: 0.5}}]"
+
+
+fail = False
 Rectangle.undefine_epsilon()
 rows = ["[[1,4,2,8], {M1: 0.5}]", "[[0.025,8.5,0.05,1], {M2: 0.5}]", "[[1.025,8.5,1.95,1], {M2: 0.5}]"]
 rows += [f"[[3,{k + 0.5},2,1], {{M2: 0.5}}]" for k in range(8)]
-a = Allocation("[" + ", ".join(rows) + "]\n# k: v\n")
-g = a.griddify()
-bad = []
-for r in g.allocations:
-    bb = r.rect.bounding_box
-    if not r.rect.fixed and r.rect.x_cuttable(0.05, 0.01):
-        bad.append((bb.ll.x, bb.ur.x, bb.ll.y, bb.ur.y))
-print(g.num_rectangles, "cells after griddify;", len(bad), "refinable cells still cuttable at the boundary x = 0.05:", bad[:3])
-if bad:
-    print("FAIL: not aligned (x cut refused for the tall cell, never reconsidered after the y cuts)")
+g = Allocation("[" + ", ".join(rows) + "]\n# k: v\n").griddify()
+bad = crossed(g)
+print("scenario 1:", g.num_rectangles, "cells after griddify;", len(bad), "crossings of refinable cells:", bad[:3])
+fail |= bool(bad)
+
+Rectangle.undefine_epsilon()
+rows = [cell(0, 0, 128, 128, "M1"), cell(0, 128, 1, 136, "M2"), cell(1, 128, 128, 136, "M2"),
+        cell(128, 0, 136, 0.5, "M3"), cell(128, 0.5, 136, 64, "M3"), cell(128, 64, 136, 128, "M3")]
+g = Allocation("[" + ", ".join(rows) + "]\n# k: v\n").griddify()
+bad = crossed(g)
+print("scenario 2:", g.num_rectangles, "cells after griddify;", len(bad), "crossings of refinable cells:", bad[:3])
+fail |= bool(bad)
+Rectangle.undefine_epsilon()
+
+if fail:
+    print("FAIL: not aligned (a cut refused as a sliver for the taller / wider cell is never reconsidered after the other sweep)")
     sys.exit(1)
 print("ok")
 sys.exit(0)
